@@ -26,6 +26,7 @@ BUILDERS = {
     "dominant_ninth": DOM7 + [(1, 2, 0)], "dominant_flat_ninth": DOM7 + [(1, 1, 0)],
     "dominant_sharp_ninth": DOM7 + [(1, 2, 1)],
     "eleventh": [(4, 7, 0), (6, 10, 0), (3, 5, 0)], "minor_eleventh": m7 + [(3, 5, 0)],
+    "major_eleventh": M7 + [(1, 2, 0), (3, 5, 0)],
     "minor_thirteenth": m7 + [(1, 2, 0), (5, 9, 0)], "major_thirteenth": M7 + [(1, 2, 0), (5, 9, 0)],
     "dominant_thirteenth": DOM7 + [(1, 2, 0), (5, 9, 0)],
     "suspended_triad": SUS4, "suspended_fourth_triad": SUS4, "suspended_second_triad": [(1, 2, 0), (4, 7, 0)],
@@ -67,3 +68,45 @@ CONTRACTS[M + "from_shorthand"] = dict(
     bounded_only="parser with str.replace chain and recursion; checked at run time over the enumeration of battery "
                  "'chord_shorthand_strings'",
     properties=["C06"], battery="chord_shorthand_strings")
+
+
+# ---------------------------------------------------------------- rotations (C07 inversions; C15: argument untouched, result fresh)
+for _nm, _k in (("invert", 1), ("first_inversion", 1), ("second_inversion", 2), ("third_inversion", 3)):
+    for _n in (1, 2, 3, 4, 5, 6, 7):
+        pass
+    CONTRACTS[M + _nm] = dict(
+        params={"chord": "[str,str,str]"}, returns="list[any]",
+        result_is="chord[%d %% len(chord):] + chord[:%d %% len(chord)]" % (_k, _k),
+        old={"old_chord": "chord"},
+        ensures=[("rotated-by-%d" % _k, "len(result) == len(chord) and "
+                                          "all([result[i] == chord[(i + %d) %% len(chord)] for i in range(len(chord))])" % _k),
+                 ("argument-unchanged", "list_same(chord, old_chord)"), ("fresh-list", "is_fresh(result) and not same_object(result, chord)")],
+        modifies=[],
+        variants=[dict(name="n%d" % n, params={"chord": "[" + ",".join(["str"] * n) + "]"}) for n in (1, 2, 4, 5, 6, 7)],
+        notes="proved for chords of 1..7 notes with arbitrary names (the sizes chord recognition uses)",
+        properties=["C07", "C15"], battery="chord_lists")
+
+
+# ---------------------------------------------------------------- chord recognition: the documented trivial answers
+_ORD = {1: "", 2: ", first inversion", 3: ", second inversion", 4: ", third inversion", 5: ", fourth inversion",
+        6: ", fifth inversion", 7: ", sixth inversion"}
+CONTRACTS[M + "int_desc"] = dict(
+    params={"tries": "int"}, requires="1 <= tries and tries <= 7", returns="str",
+    ensures=[("ordinal-text-for-every-inversion-a-7-note-chord-can-reach",
+              "result == ('' if tries == 1 else ', first inversion' if tries == 2 else ', second inversion' if tries == 3 "
+              "else ', third inversion' if tries == 4 else ', fourth inversion' if tries == 5 else ', fifth inversion' "
+              "if tries == 6 else ', sixth inversion')")],
+    modifies=[], split=[{"bind": {"tries": t}} for t in range(1, 8)], properties=["C07"], battery="small_ints")
+CONTRACTS[M + "determine"] = dict(
+    params={"chord": "[]", "shorthand": "bool", "no_inversions": "bool", "no_polychords": "bool"},
+    returns="list[any]", result_is="[]", modifies=[],
+    variants=[dict(name="one-note", params={"chord": "[str]", "shorthand": "bool", "no_inversions": "bool",
+                                            "no_polychords": "bool"}, result_is="[chord[0]]"),
+              dict(name="two-notes", params={"chord": "[str,str]", "shorthand": "bool", "no_inversions": "bool",
+                                             "no_polychords": "bool"},
+                   requires="is_name(chord[0]) and is_name(chord[1]) and 0 <= asc_distance(chord[0], chord[1]) and "
+                            "asc_distance(chord[0], chord[1]) <= 11",
+                   result_is="[quality_name(asc_distance(chord[0], chord[1]) - maj_semis(letters_spanned(chord[0], chord[1]) + 1), "
+                             "letters_spanned(chord[0], chord[1])) + ' ' + number_name(letters_spanned(chord[0], chord[1]))]")],
+    notes="0, 1 and 2 notes: the documented trivial answers (empty list, the note, the interval name)",
+    properties=["C07"], battery="tiny_chords")
